@@ -63,8 +63,9 @@ AllowedRef(cfg, st, cmd, devs) ==
          CASE cmd.k = "AUTH" ->
                 IF cmd.mech = "NONE" THEN {R("REJECTED", "WaitAuth"), R("ERROR", "WaitAuth")}
                 ELSE IF cmd.mech # cfg.mech THEN
-                     \* a mechanism this server does not offer
-                     {R("REJECTED", "WaitAuth")}
+                     \* a mechanism this server does not offer (with an unreadable initial response the
+                     \* complaint may also be about that)
+                     {R("REJECTED", "WaitAuth")} \cup (IF cmd.id = "badhex" THEN {R("ERROR", "WaitAuth")} ELSE {})
                        \cup (IF cmd.mech = "OTHER" /\ "abort_unsupported_mech" \in devs THEN {R("none", "Failed")} ELSE {})
                 ELSE IF cmd.id = "none" THEN
                      \* no initial response: ask for it, or treat it as the empty identity / trace
@@ -101,7 +102,7 @@ Allowed(cfg, st, cmd, devs) ==
 Clause(cfg, st, cmd) ==
   CASE cmd.k = "UNKNOWN" -> "error-reply"
     [] cmd.k \in {"BADEND", "LFSTART", "NONUL"} -> "none"
-    [] st = "WaitAuth" /\ cmd.k = "AUTH" /\ cmd.mech \notin {"NONE", cfg.mech} -> "rejected-reply"
+    [] st = "WaitAuth" /\ cmd.k = "AUTH" /\ cmd.mech \notin {"NONE", cfg.mech} /\ cmd.id # "badhex" -> "rejected-reply"
     [] st = "WaitAuth" /\ cmd.k \in {"DATA", "NEGOTIATE_UNIX_FD"} -> "error-reply"
     [] st = "WaitData" /\ cmd.k \in {"AUTH", "NEGOTIATE_UNIX_FD"} -> "error-reply"
     [] st = "WaitBegin" /\ cmd.k \in {"AUTH", "DATA"} -> "error-reply"
@@ -152,7 +153,8 @@ AuthSound ==
          /\ \A j \in (i + 1)..(Len(hist) - 1) : hist[j].reply \notin {"REJECTED", "OK"} /\ hist[j].cmd.k \notin {"BEGIN"}
 RejectedForUnsupported ==
   \A i \in 1..Len(hist) :
-    (hist[i].from = "WaitAuth" /\ hist[i].cmd.k = "AUTH" /\ hist[i].cmd.mech \notin {"NONE", cfg.mech}) => hist[i].reply = "REJECTED"
+    (hist[i].from = "WaitAuth" /\ hist[i].cmd.k = "AUTH" /\ hist[i].cmd.mech \notin {"NONE", cfg.mech} /\ hist[i].cmd.id # "badhex")
+      => hist[i].reply = "REJECTED"
 ErrorForUnknownOrMisplaced ==
   \A i \in 1..Len(hist) :
     (\/ hist[i].cmd.k = "UNKNOWN"
